@@ -17,14 +17,19 @@
 #include "vf.h"
 #include <stdlib.h>
 
-int vf_w_kstar, vf_w_key;
+int vf_w_kstar, vf_w_key, vf_w_nullkey;
+_Bool vf_w_ksnull, vf_w_konull, vf_w_kqnull;   /* which key pointers are NULL */
 int vf_w_present, vf_w_present_o;     /* 0 / 1 (ints: a havocked _Bool may hold a non-canonical byte) */
 _Bool vf_w_iter;
 
 #include "map.c"
 
 #define NODE(e)   ((struct cstl_map_node *)(e))
-#define KEYV(k)   (*(const int *)(k))
+/* Keys are opaque to the map: only the user's comparison looks at them, so a NULL key pointer is
+ * a key like any other (integers carried in the pointer, key 0).  Its value is the ghost
+ * vf_null_key.  (Seeded change C08-3 tested `key != NULL` where the node pointer was meant.) */
+int vf_null_key;
+#define KEYV(k)   ((k) == NULL ? vf_null_key : *(const int *)(k))
 
 /* ghost: abstract map restricted to the two key values, and the map / objects of the harness */
 cstl_map_t * vf_map;
@@ -193,7 +198,7 @@ ENSURES(vf_w_key == vf_w_kstar ? (vf_present_o == vf_w_present_o && (!vf_w_prese
 static int cstl_map_node_cmp(const void * const _a, const void * const _b, void * const p)
 REQUIRES(p == vf_map && vf_map->cmp.f == vf_ucmp && vf_map->cmp.p == vf_user_priv && !vf_cmp_bad)
 REQUIRES(__CPROVER_r_ok(_a, sizeof(struct cstl_map_node)) && __CPROVER_r_ok(_b, sizeof(struct cstl_map_node)))
-REQUIRES(__CPROVER_r_ok(NODE(_a)->key, sizeof(int)) && __CPROVER_r_ok(NODE(_b)->key, sizeof(int)))
+REQUIRES((NODE(_a)->key == NULL || __CPROVER_r_ok(NODE(_a)->key, sizeof(int))) && (NODE(_b)->key == NULL || __CPROVER_r_ok(NODE(_b)->key, sizeof(int))))
 ASSIGNS(vf_cmp_calls, vf_cmp_bad)
 ENSURES(!vf_cmp_bad && vf_cmp_calls == OLD(vf_cmp_calls) + 1)
 ENSURES(RESULT == (KEYV(NODE(_a)->key) > KEYV(NODE(_b)->key)) - (KEYV(NODE(_a)->key) < KEYV(NODE(_b)->key)))
@@ -214,6 +219,7 @@ ENSURES(map->t.off == offsetof(struct cstl_map_node, n) &&
 static cstl_map_t vf_M;
 static int vf_KS, vf_KO, vf_KQ, vf_VS, vf_VO, vf_VQ, vf_P;
 static cstl_map_iterator_t vf_I;
+static const void * vf_kq;     /* the key pointer the caller passes: a key object or NULL */
 
 static void vf_setup(void)
 {
@@ -241,13 +247,18 @@ static void vf_setup(void)
     vf_KS = vf_w_kstar;
     vf_KO = vf_w_key;
     vf_KQ = vf_w_key;
+    vf_null_key = VF_IN_INT(nullkey);
+    VF_IN_BOOL(ksnull); VF_IN_BOOL(konull); VF_IN_BOOL(kqnull);
     vf_node = malloc(sizeof(*vf_node));
     vf_node_o = malloc(sizeof(*vf_node_o));
     __CPROVER_assume(vf_node != NULL && vf_node_o != NULL);
     /* stored pointers: the key objects of the entries (distinct from the key object the caller
      * passes: "inserting an existing key through a different pointer"), arbitrary values */
-    vf_ks = &vf_KS; vf_vs = nondet_bool() ? (void *)&vf_VS : NULL;
-    vf_ko = &vf_KO; vf_vo = nondet_bool() ? (void *)&vf_VO : NULL;
+    vf_ks = vf_w_ksnull ? NULL : (const void *)&vf_KS; vf_vs = nondet_bool() ? (void *)&vf_VS : NULL;
+    vf_ko = vf_w_konull ? NULL : (const void *)&vf_KO; vf_vo = nondet_bool() ? (void *)&vf_VO : NULL;
+    vf_kq = vf_w_kqnull ? NULL : (const void *)&vf_KQ;
+    /* a NULL key pointer stands for the key value vf_null_key */
+    __CPROVER_assume(KEYV(vf_ks) == vf_w_kstar && KEYV(vf_ko) == vf_w_key && KEYV(vf_kq) == vf_w_key);
     vf_node->key = vf_ks; vf_node->val = vf_vs;
     vf_node_o->key = vf_ko; vf_node_o->val = vf_vo;
 }
@@ -256,10 +267,10 @@ void h_insert(void)
 {
     vf_setup();
     {
-        int r_ = cstl_map_insert(&vf_M, &vf_KQ, &vf_VQ, vf_w_iter ? &vf_I : NULL);
+        int r_ = cstl_map_insert(&vf_M, vf_kq, &vf_VQ, vf_w_iter ? &vf_I : NULL);
 #ifdef VF_DEBUG
         if (r_ == 0 && vf_w_key == vf_w_kstar) {
-            __CPROVER_assert(vf_node->key == &vf_KQ, "DBG key");
+            __CPROVER_assert(vf_node->key == vf_kq, "DBG key");
             __CPROVER_assert(vf_node->val == &vf_VQ, "DBG val");
             __CPROVER_assert(vf_node->val == (void *)&vf_VQ, "DBG val2");
         }
@@ -270,13 +281,13 @@ void h_insert(void)
 void h_find(void)
 {
     vf_setup();
-    cstl_map_find(&vf_M, &vf_KQ, &vf_I);
+    cstl_map_find(&vf_M, vf_kq, &vf_I);
     VF_END();
 }
 void h_erase(void)
 {
     vf_setup();
-    cstl_map_erase(&vf_M, &vf_KQ, vf_w_iter ? &vf_I : NULL);
+    cstl_map_erase(&vf_M, vf_kq, vf_w_iter ? &vf_I : NULL);
     VF_END();
 }
 void h_erase_iterator(void)
@@ -293,7 +304,7 @@ void h_node_cmp(void)
 {
     struct cstl_map_node a, b;
     vf_setup();
-    a.key = &vf_KS; b.key = &vf_KQ;
+    a.key = vf_ks; b.key = vf_kq;
     a.val = nondet_ptr(); b.val = nondet_ptr();
     cstl_map_node_cmp(nondet_bool() ? &a : &b, nondet_bool() ? &a : &b, &vf_M);
     VF_END();
@@ -320,6 +331,7 @@ static int vf_ncmp(const void * a, const void * b, void * p)
 }
 static cstl_map_t vf_M;
 static int vf_KS, vf_KO, vf_KQ, vf_VS, vf_VO, vf_VQ, vf_F1, vf_F2;
+static const void * vf_ks, * vf_ko, * vf_kq;
 static cstl_map_iterator_t vf_I;
 static size_t vf_n0;
 
@@ -327,17 +339,20 @@ static void vf_native_setup(void)
 {
     long long f1, f2;
     VF_IN_INT(kstar); VF_IN_INT(key); VF_IN_INT(present); VF_IN_INT(present_o); VF_IN_BOOL(iter);
+    vf_null_key = VF_IN_INT(nullkey); VF_IN_BOOL(ksnull); VF_IN_BOOL(konull); VF_IN_BOOL(kqnull);
     VF_ASSUME(vf_w_key != vf_w_kstar || !vf_w_present_o);
     vf_KS = vf_w_kstar; vf_KO = vf_w_key; vf_KQ = vf_w_key;
+    vf_ks = vf_w_ksnull ? NULL : &vf_KS; vf_ko = vf_w_konull ? NULL : &vf_KO; vf_kq = vf_w_kqnull ? NULL : &vf_KQ;
+    VF_ASSUME(KEYV(vf_ks) == vf_w_kstar && KEYV(vf_ko) == vf_w_key && KEYV(vf_kq) == vf_w_key);
     cstl_map_init(&vf_M, vf_ncmp, &vf_P);
     if (vf_w_present) {
-        VF_NCHECK(cstl_map_insert(&vf_M, &vf_KS, &vf_VS, NULL) == 0, "setup: entry for K*");
+        VF_NCHECK(cstl_map_insert(&vf_M, vf_ks, &vf_VS, NULL) == 0, "setup: entry for K*");
     }
     if (vf_w_present_o) {
-        VF_NCHECK(cstl_map_insert(&vf_M, &vf_KO, &vf_VO, NULL) == 0, "setup: entry for the operation's key");
+        VF_NCHECK(cstl_map_insert(&vf_M, vf_ko, &vf_VO, NULL) == 0, "setup: entry for the operation's key");
     }
-    for (f1 = 7; f1 == vf_w_kstar || f1 == vf_w_key; f1++) { }
-    for (f2 = -7; f2 == vf_w_kstar || f2 == vf_w_key || f2 == f1; f2--) { }
+    for (f1 = 7; f1 == vf_w_kstar || f1 == vf_w_key || f1 == vf_null_key; f1++) { }
+    for (f2 = -7; f2 == vf_w_kstar || f2 == vf_w_key || f2 == f1 || f2 == vf_null_key; f2--) { }
     vf_F1 = (int)f1; vf_F2 = (int)f2;
     cstl_map_insert(&vf_M, &vf_F1, NULL, NULL);
     cstl_map_insert(&vf_M, &vf_F2, NULL, NULL);
@@ -351,9 +366,9 @@ static void vf_native_other_kept(void)
     if (vf_w_key == vf_w_kstar) {
         return;
     }
-    cstl_map_find(&vf_M, &vf_KS, &j);
+    cstl_map_find(&vf_M, vf_ks, &j);
     if (vf_w_present) {
-        VF_NCHECK(j._ != NULL && j.key == &vf_KS && j.val == &vf_VS, "the entry of the other key K* stays with its stored pointers");
+        VF_NCHECK(j._ != NULL && j.key == vf_ks && j.val == &vf_VS, "the entry of the other key K* stays with its stored pointers");
     } else {
         VF_NCHECK(j._ == NULL, "the other key K* stays absent");
     }
@@ -369,10 +384,10 @@ void h_insert(void)
     cstl_map_iterator_t j;
     vf_native_setup();
     held = (vf_w_key == vf_w_kstar) ? vf_w_present : vf_w_present_o;
-    r = cstl_map_insert(&vf_M, &vf_KQ, &vf_VQ, vf_w_iter ? &vf_I : NULL);
-    cstl_map_find(&vf_M, &vf_KQ, &j);
+    r = cstl_map_insert(&vf_M, vf_kq, &vf_VQ, vf_w_iter ? &vf_I : NULL);
+    cstl_map_find(&vf_M, vf_kq, &j);
     if (held) {
-        const void * sk = (vf_w_key == vf_w_kstar) ? (const void *)&vf_KS : (const void *)&vf_KO;
+        const void * sk = (vf_w_key == vf_w_kstar) ? (const void *)vf_ks : (const void *)vf_ko;
         void * sv = (vf_w_key == vf_w_kstar) ? (void *)&vf_VS : (void *)&vf_VO;
         VF_NCHECK(r == 1, "insert of an existing key returns 1");
         VF_NCHECK(cstl_map_size(&vf_M) == vf_n0, "insert of an existing key leaves the size");
@@ -383,9 +398,9 @@ void h_insert(void)
     } else {
         VF_NCHECK(r == 0, "insert of a new key returns 0");
         VF_NCHECK(cstl_map_size(&vf_M) == vf_n0 + 1, "insert of a new key grows the size by one");
-        VF_NCHECK(j.key == &vf_KQ && j.val == &vf_VQ, "the new entry stores the given pointers");
+        VF_NCHECK(j.key == vf_kq && j.val == &vf_VQ, "the new entry stores the given pointers");
         if (vf_w_iter) {
-            VF_NCHECK(vf_I.key == &vf_KQ && vf_I.val == &vf_VQ && vf_I._ == j._, "insert of a new key yields the new entry");
+            VF_NCHECK(vf_I.key == vf_kq && vf_I.val == &vf_VQ && vf_I._ == j._, "insert of a new key yields the new entry");
         }
     }
     vf_native_other_kept();
@@ -396,9 +411,9 @@ void h_find(void)
     int held;
     vf_native_setup();
     held = (vf_w_key == vf_w_kstar) ? vf_w_present : vf_w_present_o;
-    cstl_map_find(&vf_M, &vf_KQ, &vf_I);
+    cstl_map_find(&vf_M, vf_kq, &vf_I);
     if (held) {
-        VF_NCHECK(vf_I._ != NULL && vf_I.key == ((vf_w_key == vf_w_kstar) ? (const void *)&vf_KS : (const void *)&vf_KO) &&
+        VF_NCHECK(vf_I._ != NULL && vf_I.key == ((vf_w_key == vf_w_kstar) ? (const void *)vf_ks : (const void *)vf_ko) &&
                   vf_I.val == ((vf_w_key == vf_w_kstar) ? (void *)&vf_VS : (void *)&vf_VO), "find yields the stored pointers");
     } else {
         VF_NCHECK(vf_I._ == NULL && vf_I.key == NULL && vf_I.val == NULL, "find of an absent key yields the end iterator");
@@ -412,13 +427,13 @@ void h_erase(void)
     cstl_map_iterator_t j;
     vf_native_setup();
     held = (vf_w_key == vf_w_kstar) ? vf_w_present : vf_w_present_o;
-    r = cstl_map_erase(&vf_M, &vf_KQ, vf_w_iter ? &vf_I : NULL);
-    cstl_map_find(&vf_M, &vf_KQ, &j);
+    r = cstl_map_erase(&vf_M, vf_kq, vf_w_iter ? &vf_I : NULL);
+    cstl_map_find(&vf_M, vf_kq, &j);
     VF_NCHECK(j._ == NULL, "after erase the key is absent");
     if (held) {
         VF_NCHECK(r == 0 && cstl_map_size(&vf_M) == vf_n0 - 1, "erase of a held key returns 0 and shrinks the size by one");
         if (vf_w_iter) {
-            VF_NCHECK(vf_I.key == ((vf_w_key == vf_w_kstar) ? (const void *)&vf_KS : (const void *)&vf_KO) &&
+            VF_NCHECK(vf_I.key == ((vf_w_key == vf_w_kstar) ? (const void *)vf_ks : (const void *)vf_ko) &&
                       vf_I.val == ((vf_w_key == vf_w_kstar) ? (void *)&vf_VS : (void *)&vf_VO) && vf_I._ == NULL,
                       "erase reports the stored pointers of the removed entry");
         }
@@ -436,9 +451,9 @@ void h_erase_iterator(void)
     cstl_map_iterator_t j;
     vf_native_setup();
     VF_ASSUME((vf_w_key == vf_w_kstar) ? vf_w_present : vf_w_present_o);
-    cstl_map_find(&vf_M, &vf_KQ, &vf_I);
+    cstl_map_find(&vf_M, vf_kq, &vf_I);
     cstl_map_erase_iterator(&vf_M, &vf_I);
-    cstl_map_find(&vf_M, &vf_KQ, &j);
+    cstl_map_find(&vf_M, vf_kq, &j);
     VF_NCHECK(j._ == NULL && cstl_map_size(&vf_M) == vf_n0 - 1, "erase by iterator removes exactly the referenced entry");
     vf_native_other_kept();
     vf_native_teardown();
@@ -447,7 +462,7 @@ void h_node_cmp(void)
 {
     cstl_map_iterator_t j;
     vf_native_setup();
-    cstl_map_find(&vf_M, &vf_KQ, &j);
+    cstl_map_find(&vf_M, vf_kq, &j);
     cstl_map_find(&vf_M, &vf_F1, &j);
     VF_NCHECK(j._ != NULL, "an unrelated entry is found");
     vf_native_teardown();
